@@ -235,6 +235,8 @@ type ctl struct {
 	lastGrant, lastPoint     string
 	freeConds                bool // (unused: conditions on tracked state mean nothing once the points are off)
 	fixed                    bool // variant=stopq: scanInput and inputLoop also select on stopQ (fixes/C06-shutdown-selects-stopq.patch)
+	tagf                     func(string) // situation tags (evidence: the boundary situations do occur); never takes c.mu
+	postAtEdge               map[string]bool // posters that called PostEvent with the queue at cap-1 or cap
 }
 
 var goidRe = regexp.MustCompile(`^goroutine (\d+) `)
@@ -353,6 +355,55 @@ func (c *ctl) track(g *gor, id string, v []int) {
 			return v[i]
 		}
 		return -1
+	}
+	tag := func(t string) {
+		if c.tagf != nil {
+			c.tagf(t)
+		}
+	}
+	switch id { // situation tags only (no effect on the tracked state)
+	case "resize-post":
+		if at(1) > 0 && at(0) == at(1) {
+			tag("resize-at-full-queue")
+		} else if at(1) > 0 && at(0) == at(1)-1 {
+			tag("resize-takes-last-slot")
+		}
+		if c.shutdownIn != "" {
+			tag("resize-post-during-" + c.shutdownIn)
+		}
+	case "resize-drop":
+		tag("resize-dropped")
+	case "notify":
+		if c.shutdownIn != "" {
+			tag("notify-during-" + c.shutdownIn)
+		}
+		if c.eqCap > 0 && c.eq == c.eqCap {
+			tag("notify-at-full-queue")
+		}
+	case "main-resize":
+		if c.stop {
+			tag("main-resize-after-stopq-closed")
+		}
+	case "post":
+		if at(1) > 0 && (at(0) == at(1)-1 || at(0) == at(1)) {
+			if at(0) == at(1) {
+				tag("post-at-cap")
+			} else {
+				tag("post-at-cap-1")
+			}
+			c.postAtEdge[g.name] = true
+			if len(c.postAtEdge) >= 2 {
+				tag("post-boundary-multi")
+			}
+		}
+	case "post-sent":
+		if c.eqCap > 0 && at(0) == c.eqCap {
+			tag("post-filled-last-slot")
+		}
+	case "scan-send":
+		if at(1) > 0 && at(0) == at(1) && c.rq > 0 {
+			tag("resize-pending-while-scan-blocked")
+		}
 	}
 	switch id {
 	case "fin-closed":
@@ -702,6 +753,7 @@ type scenario struct {
 	findings []finding
 	tags     map[string]bool
 	fmu      sync.Mutex
+	gmu      sync.Mutex // guards got once the goroutines run freely (op `free`)
 
 	// feeder
 	feed            []string
@@ -737,6 +789,11 @@ type scenario struct {
 	t0            time.Time
 	callRet       chan struct{}
 	resumeAt      int // index in got of the first event delivered after the (last) Resume
+	postAt        int      // posters start posting once the event queue holds this many events (boundary cases)
+	inMid, expMid []string // input injected between Suspend and Resume (op `mid`)
+	midDone       atomic.Bool
+	midInjected   bool
+	suspendedNow  bool // between the return of Suspend and the next Resume
 	resumed       bool
 	traceAtResume int
 }
@@ -801,7 +858,9 @@ func (sc *scenario) record(ev tcell.Event) {
 	sc.c.mu.Lock()
 	rec.epoch = sc.c.epoch
 	sc.c.mu.Unlock()
+	sc.gmu.Lock()
 	sc.got = append(sc.got, rec)
+	sc.gmu.Unlock()
 }
 
 func parseHdr(s string) map[string]string {
@@ -824,6 +883,10 @@ func split(s string) []string {
 // ---- actors
 
 func (sc *scenario) feeder(steps []string, second bool) {
+	sc.feederN(steps, second, false)
+}
+
+func (sc *scenario) feederN(steps []string, second, mid bool) {
 	c := sc.c
 	c.mu.Lock()
 	for _, st := range steps {
@@ -842,7 +905,9 @@ func (sc *scenario) feeder(steps []string, second bool) {
 		case strings.HasPrefix(st, "c:"):
 			b, _ := hex.DecodeString(st[2:])
 			now := time.Now()
-			if second {
+			if mid {
+				// input that arrives while the screen is suspended: its When() lower bound is the start of the run
+			} else if second {
 				if sc.inject2At.IsZero() {
 					sc.inject2At = now
 				}
@@ -945,8 +1010,13 @@ func (sc *scenario) consumerChan() {
 
 func (sc *scenario) poster(p, n int, wait bool) {
 	c := sc.c
+	var gate func() bool
+	if sc.postAt > 0 {
+		// boundary cases: the posters wait until the queue is (nearly) full, then compete for the last slots
+		gate = func() bool { return c.eq >= sc.postAt }
+	}
 	for i := 0; i < n; i++ {
-		c.park("post-step", nil, false)
+		c.park("post-step", gate, false)
 		sc.postTime[p][i] = time.Now()
 		ev := tcell.NewEventInterrupt([2]int{p, i})
 		if wait {
@@ -1113,13 +1183,16 @@ func runCase(line string) output {
 			ops = append(ops, p)
 		}
 	}
-	c := &ctl{gs: map[int64]*gor{}, wake: make(chan struct{}, 1), freeCh: make(chan struct{}), weights: map[string]int{}, inErrRunning: map[int64]bool{}}
+	c := &ctl{gs: map[int64]*gor{}, wake: make(chan struct{}, 1), freeCh: make(chan struct{}), weights: map[string]int{}, inErrRunning: map[int64]bool{}, postAtEdge: map[string]bool{}}
 	c.r = rnd{s: uint64(atoi(hdr["seed"]))*0x9E3779B97F4A7C15 + 77}
 	for _, w := range split(hdr["w"]) {
 		kv := strings.Split(w, ":")
 		if len(kv) == 2 {
 			c.weights[kv[0]] = atoi(kv[1])
 		}
+	}
+	if _, ok := c.weights["rz"]; !ok {
+		c.weights["rz"] = 20 // the window in which a Suspend call is in progress is short
 	}
 	c.fixed = hdr["variant"] == "stopq"
 	c.timer = true // Init arms the 50 ms timer (tscreen.go:192)
@@ -1130,6 +1203,7 @@ func runCase(line string) output {
 	}
 	sc.tty = newTty(c, 80, 24)
 	c.tty = sc.tty
+	c.tagf = sc.tag
 	c.onPoll = func(g *gor, qlen int) {
 		if g.must && qlen == 0 && !c.quit {
 			sc.find("pending-then-blocks", "HasPendingEvent returned true but the event queue was empty when the same (only) consumer called PollEvent next")
@@ -1147,6 +1221,9 @@ func runCase(line string) output {
 	}
 	sc.in2 = split(hdr["feed2"])
 	sc.exp2 = split(hdr["exp2"])
+	sc.inMid = split(hdr["feedm"])
+	sc.expMid = split(hdr["expm"])
+	sc.postAt = atoi(hdr["postat"])
 	sc.errCutoff = -1
 	sc.stopAfter = -1
 	if v, ok := hdr["stop"]; ok {
@@ -1332,6 +1409,33 @@ func (sc *scenario) director(nPost, perPost int, postWait bool) {
 	if m := atoi(sc.hdr["draw"]); m > 0 {
 		c.spawn("draw", func() { sc.drawer(m) })
 	}
+	if rz := sc.hdr["rzs"]; rz != "" {
+		wh := strings.Split(rz, "x")
+		if len(wh) == 2 {
+			c.spawn("rz", func() {
+				// enabled only while the director is inside Suspend(): the notification races with disengage
+				c.park("rz-step", func() bool { return c.shutdownIn == "suspend" }, false)
+				if c.free.Load() {
+					return
+				}
+				c.mu.Lock()
+				during := c.shutdownIn == "suspend"
+				stopClosed := c.stop
+				c.mu.Unlock()
+				if during {
+					sc.tag("resize-during-suspend")
+					if stopClosed {
+						sc.tag("resize-during-suspend-after-stopq-closed")
+					}
+				}
+				sc.fmu.Lock()
+				sc.resizes = append(sc.resizes, time.Now())
+				sc.fmu.Unlock()
+				c.env("size:" + wh[0] + "," + wh[1])
+				sc.tty.resize(atoi(wh[0]), atoi(wh[1]))
+			})
+		}
+	}
 	ops := append([]string{}, sc.ops...)
 	if len(ops) == 0 || ops[len(ops)-1] != "fini" {
 		ops = append(ops, "fini")
@@ -1370,9 +1474,44 @@ func (sc *scenario) director(nPost, perPost int, postWait bool) {
 			sc.steadyCheck()
 		case "suspend":
 			sc.shutdown("suspend")
+		case "free":
+			// from here on no serialising controller: the goroutines of the library and of the test run under the real Go
+			// scheduler.  (Under the controller an operation at a parking point is only started when it cannot block, so a
+			// change that makes a blocking send non-blocking — drop, or hand over to a helper goroutine — never shows.)
+			c.park("dir-step", nil, false)
+			sc.tag("free-running")
+			c.release()
+		case "sleep":
+			if len(f) >= 2 && c.free.Load() {
+				time.Sleep(time.Duration(atoi(f[1])) * time.Millisecond)
+			}
+		case "freecheck":
+			sc.freeCheck()
+		case "resize":
+			// a window-size change + SIGWINCH-style notification at this point of the script (op `resize W H`)
+			if len(f) >= 3 {
+				c.park("dir-step", nil, false)
+				sc.fmu.Lock()
+				sc.resizes = append(sc.resizes, time.Now())
+				sc.fmu.Unlock()
+				c.env("size:" + f[1] + "," + f[2])
+				sc.tty.resize(atoi(f[1]), atoi(f[2]))
+			}
+		case "mid":
+			// input arriving between Suspend and Resume (after the first batch is completely in the tty)
+			if len(sc.inMid) > 0 && !sc.midInjected {
+				c.park("dir-mid", func() bool { return sc.feedDone.Load() }, false)
+				sc.midInjected = true
+				if sc.suspendedNow {
+					sc.tag("input-while-suspended")
+				}
+				c.spawn("feed", func() { sc.feederN(sc.inMid, true, true); sc.midDone.Store(true) })
+				c.park("dir-mid-done", func() bool { return sc.midDone.Load() }, false)
+			}
 		case "resume":
 			c.park("dir-step", nil, false)
 			c.env("resume")
+			sc.suspendedNow = false
 			if err := s.Resume(); err != nil {
 				sc.tag("resume-error")
 			} else {
@@ -1387,7 +1526,7 @@ func (sc *scenario) director(nPost, perPost int, postWait bool) {
 			sc.resumeCheck()
 		case "more":
 			// the second batch is injected after the first one is completely in the tty (else the two interleave)
-			c.park("dir-more", func() bool { return sc.feedDone.Load() }, false)
+			c.park("dir-more", func() bool { return sc.feedDone.Load() && (!sc.midInjected || sc.midDone.Load()) }, false)
 			c.spawn("feed", func() { sc.feeder(sc.in2, true) })
 		case "fini":
 			sc.shutdown("fini")
@@ -1412,6 +1551,7 @@ func (sc *scenario) shutdown(kind string) {
 	} else {
 		sc.suspended = true
 		sc.s.Suspend()
+		sc.suspendedNow = true
 	}
 	sc.callRet <- struct{}{}
 	c.env(kind + "-ret")
